@@ -105,6 +105,41 @@ Theorem C06_pinned_F3_hang :
 Proof. exists f3_sched. exact f3_hang. Qed.
 Print Assumptions C06_pinned_F3_hang.
 
+(* ---------- kill wakes everyone: for EVERY network (any plugin graph, any wiring, lazy or eager, any
+   capacities, any failure injection, repaired or not) and every schedule ---------- *)
+From SV Require Import Proof.MailboxFailWake.
+
+(* in every reachable state: (1) a thread blocked on a condition of a killed mailbox has been woken (no lost
+   wake-up across kill: kill notifies all three conditions); (2) kill() kills and force-kills; (3) a killed
+   mailbox stays killed; (4)-(6) every later read / send / fetch-gate region on it returns or raises without
+   waiting *)
+Theorem C06_kill_wakes_everyone :
+  forall (nt : net) (boxes : list mbox) (threads : list thread) (sched : list nat) (st : nstate),
+    (forall t, In t threads -> plain_pc (t_pc t)) -> (forall m, In m boxes -> mb_box m = []) ->
+    nrun nt (ninit nt boxes threads) sched = Some st ->
+    (forall i t j, nth_error (ths st) i = Some t -> waits_on t j -> mb_killed (get_mb st j) = true -> t_woken t = true) /\
+    (forall j c, j < length (mbs st) ->
+       mb_killed (get_mb (kill_mb st j c) j) = true /\ mb_fkilled (get_mb (kill_mb st j c) j) = true) /\
+    (forall sched' st' j, nrun nt st sched' = Some st' -> mb_killed (get_mb st j) = true -> mb_killed (get_mb st' j) = true) /\
+    (forall tid t resume, tid < length (ths st) -> mb_killed (get_mb st (r_mb (cur_r t))) = true ->
+       not_waiting (t_pc (get_th (read_region nt tid resume st t) tid))) /\
+    (forall tid t resume oi mg closing, tid < length (ths st) -> mb_killed (get_mb st (out_mb t oi)) = true ->
+       not_waiting (t_pc (get_th (send_region nt tid resume st t oi mg closing) tid))) /\
+    (forall tid t resume oi, tid < length (ths st) -> mb_killed (get_mb st (out_mb t oi)) = true ->
+       not_waiting (t_pc (get_th (gate_region nt tid resume st t oi) tid))).
+Proof. exact kill_wakes_everyone. Qed.
+Print Assumptions C06_kill_wakes_everyone.
+
+(* the general no-lost-wake-up invariant behind it: in every reachable state of every network, a thread waiting
+   with its woken flag clear has a false wait predicate (its message is absent and the mailbox not killed / the
+   box is full and not killed / _can_fetch is false) *)
+Theorem C06_network_no_lost_wakeup :
+  forall (nt : net) (boxes : list mbox) (threads : list thread) (sched : list nat) (st : nstate),
+    (forall t, In t threads -> plain_pc (t_pc t)) -> (forall m, In m boxes -> mb_box m = []) ->
+    nrun nt (ninit nt boxes threads) sched = Some st -> Wn st.
+Proof. intros nt boxes threads sched st Ht Hm. apply Wn_reachable; auto. Qed.
+Print Assumptions C06_network_no_lost_wakeup.
+
 (* ---------- full statements (for the repaired code, fx = true) ---------- *)
 
 (* chains of any length, any capacities >= 1, lazy or eager, any number of savers per mailbox: a failure at any
